@@ -308,8 +308,8 @@ func (vc *VC) applyContract(st *State, c *Contract, key string, sig *types.Signa
 		}
 	}
 	for _, en := range c.Ensures {
-		if usesCall(en.E, "callres") {
-			continue // internal clause about the callee's own call sites: not part of its interface
+		if usesCall(en.E, "callres") || usesCall(en.E, "keys") {
+			continue // internal clause (own call sites / own literal tables): not part of the interface
 		}
 		t, err := post.EvalBool(en.E)
 		if err != nil {
